@@ -47,6 +47,7 @@ if CYC:
         ("kMinPathErrorCycles+scale0", dict(k=2, weight_type=int, error_scaling=dict([(("a", "a"), 0)])), "subset_constraints"),
         ("kLeastAbsErrorsCycles+scale0", dict(k=2, weight_type=int, error_scaling=dict([(("a", "a"), 0)])), "subset_constraints"),
         ("kMinPathErrorCycles+percentile", dict(k=2, weight_type=int, elements_to_ignore_percentile=40), "subset_constraints"),
+        ("MinErrorFlow+eps", dict(weight_type=int, few_flow_values_epsilon=0.5), None),
     ]
     CONSTRAINT = [[("a", "b"), ("b", "a")]]
     IGNORE = [("a", "a")]
@@ -63,6 +64,7 @@ else:
         ("kMinPathError+scale0", dict(k=2, weight_type=int, error_scaling=dict([(("a", "c"), 0)])), "subpath_constraints"),
         ("kLeastAbsErrors+scale0", dict(k=2, weight_type=int, error_scaling=dict([(("a", "c"), 0)])), "subpath_constraints"),
         ("MinFlowDecomp+scanning", dict(weight_type=int), "subpath_constraints"),
+        ("MinErrorFlow+eps", dict(weight_type=int, few_flow_values_epsilon=0.5), None),
     ]
     CONSTRAINT = [[("a", "b"), ("b", "d")]]
     IGNORE = [("b", "c")]
@@ -84,10 +86,14 @@ def _run(ci, share_opts, share_lists, sh):
     kw = copy.deepcopy(kw)
     if name.endswith("+scanning") and not share_opts:
         kw["optimization_options"] = {{"use_subgraph_scanning_lowerbound": True}}
-    if share_opts:
+    if share_opts and name.startswith("MinErrorFlow"):
+        kw["solver_options"] = sh["sopts"]          # this class takes no optimization_options
+    elif share_opts:
         kw["optimization_options"] = sh["opts"]
         kw["solver_options"] = sh["sopts"]
-    if share_lists:
+    if share_lists and ckey is None:
+        kw["elements_to_ignore"] = sh["ignore"]
+    elif share_lists:
         kw[ckey] = sh["constraints"]
         kw["elements_to_ignore"] = sh["ignore"] if not name.endswith("+percentile") else sh["ignore_empty"]   # the percentile rule needs an empty list
     if "PathCover" in name:
@@ -98,7 +104,7 @@ def _run(ci, share_opts, share_lists, sh):
     if not ok:
         return m, (False, None, None)
     sol = m.get_solution()
-    routes = sol["walks" if CYC else "paths"]
+    routes = sol.get("walks" if CYC else "paths", [])
     return m, (True, round(float(m.get_objective_value()), 6), len(routes))
 
 def _one(ci, share_opts, share_lists):
@@ -165,7 +171,7 @@ history([0] * HLEN, [True] * HLEN, [True] * HLEN)
 
 
 def gen_tasks(tier, seed):
-    tasks = [{"kind": "xh", "cyc": False, "hlen": 2, "name": "dag-histories"}, {"kind": "xh", "cyc": True, "hlen": 2, "name": "cyclic-histories"}, {"kind": "defaults"}]
+    tasks = [{"kind": "xh", "cyc": False, "hlen": 2, "name": "dag-histories"}, {"kind": "xh", "cyc": True, "hlen": 2, "name": "cyclic-histories"}, {"kind": "defaults"}, {"kind": "resolve"}]
     if tier != "quick":
         tasks += [{"kind": "xh", "cyc": False, "hlen": 3, "name": "dag-histories-3"}, {"kind": "xh", "cyc": True, "hlen": 3, "name": "cyclic-histories-3"}]
     for i, t in enumerate(tasks):
@@ -182,6 +188,8 @@ def run_task(task):
     res["evaluations"] = 1
     if task["kind"] == "defaults":
         return _defaults(task, res)
+    if task["kind"] == "resolve":
+        return _resolve(task, res)
     res["functions"] = ["every exported DAG model class" if not task["cyc"] else "every exported cyclic model class", "__init__/solve/get_solution/get_objective_value"]
     out, cpu = xh.run_module(_src(task), f"c18_{task['tid']}", per_condition_timeout=task.get("timeout", 120))
     res["solver_s"] += cpu
@@ -204,8 +212,8 @@ def run_task(task):
     return res
 
 
-DAG_NAMES = ["kFlowDecomp", "MinFlowDecomp", "kLeastAbsErrors", "kMinPathError", "kPathCover", "MinPathCover", "kLeastAbsErrors+superset", "kMinPathError+superset", "kMinPathError+scale0", "kLeastAbsErrors+scale0", "MinFlowDecomp+scanning"]
-CYC_NAMES = ["kFlowDecompCycles", "MinFlowDecompCycles", "kLeastAbsErrorsCycles", "kMinPathErrorCycles", "kPathCoverCycles", "MinPathCoverCycles", "kMinPathErrorCycles+scale0", "kLeastAbsErrorsCycles+scale0"]
+DAG_NAMES = ["kFlowDecomp", "MinFlowDecomp", "kLeastAbsErrors", "kMinPathError", "kPathCover", "MinPathCover", "kLeastAbsErrors+superset", "kMinPathError+superset", "kMinPathError+scale0", "kLeastAbsErrors+scale0", "MinFlowDecomp+scanning", "MinErrorFlow+eps"]
+CYC_NAMES = ["kFlowDecompCycles", "MinFlowDecompCycles", "kLeastAbsErrorsCycles", "kMinPathErrorCycles", "kPathCoverCycles", "MinPathCoverCycles", "kMinPathErrorCycles+scale0", "kLeastAbsErrorsCycles+scale0", "kMinPathErrorCycles+percentile", "MinErrorFlow+eps"]
 
 
 def _diag(task, call):
@@ -231,7 +239,7 @@ def _diag(task, call):
             if not unchanged:
                 return f"{names[cs[i]]}:mutates-caller-arguments"
             if not rep_ok:
-                return f"{names[cs[i]]}:repeated-getters-disagree"
+                return f"{names[cs[i]]}:repeated-calls-disagree"
             if r != mod._baseline(cs[i], bool(so[i]), bool(sl[i])):
                 return f"{names[cs[i]]}:result-depends-on-earlier-models"
     except Exception as e:
@@ -310,9 +318,65 @@ def _defaults(task, res):
     return res
 
 
+def _resolve(task, res):
+    """solve(), getters, solve() again, getters again on one object: same verdict, same optimum, same size (inputs that need a non-trivial optimum)"""
+    import flowpaths as fp
+    import networkx as nx
+    res["functions"] = ["solve()/get_solution()/get_objective_value() called twice on one object, every exported model class"]
+    def g(edges):
+        G_ = nx.DiGraph()
+        for (u, v, f) in edges:
+            G_.add_edge(u, v, flow=f)
+        return G_
+    D = [("a", "b", 3), ("a", "c", 2), ("b", "d", 2), ("c", "d", 3), ("b", "c", 1)]                     # conserving DAG
+    Dn = [("s", "a", 6), ("a", "b", 22), ("s", "b", 7), ("a", "c", 4), ("b", "c", 29), ("c", "d", 26), ("d", "t", 6), ("c", "t", 7)]   # not conserving
+    C = [("s", "a", 2), ("a", "b", 3), ("b", "a", 1), ("b", "t", 2), ("a", "a", 1)]
+    Cn = [("s", "a", 2), ("a", "b", 5), ("b", "a", 1), ("b", "t", 4)]
+    mk = [("kFlowDecomp", lambda: fp.kFlowDecomp(g(D), "flow", k=3, weight_type=int)), ("MinFlowDecomp", lambda: fp.MinFlowDecomp(g(D), "flow", weight_type=int)),
+          ("MinFlowDecomp/no-greedy", lambda: fp.MinFlowDecomp(g(D), "flow", weight_type=int, optimization_options={"optimize_with_greedy": False})),
+          ("kLeastAbsErrors", lambda: fp.kLeastAbsErrors(g(Dn), "flow", k=2, weight_type=int)), ("kMinPathError", lambda: fp.kMinPathError(g(Dn), "flow", k=2, weight_type=int)),
+          ("kPathCover", lambda: fp.kPathCover(g(D), k=2)), ("MinPathCover", lambda: fp.MinPathCover(g(D))),
+          ("kFlowDecompCycles", lambda: fp.kFlowDecompCycles(g(C), "flow", k=2, weight_type=int)), ("MinFlowDecompCycles", lambda: fp.MinFlowDecompCycles(g(C), "flow", weight_type=int)),
+          ("kLeastAbsErrorsCycles", lambda: fp.kLeastAbsErrorsCycles(g(Cn), "flow", k=1, weight_type=int)), ("kMinPathErrorCycles", lambda: fp.kMinPathErrorCycles(g(Cn), "flow", k=1, weight_type=int)),
+          ("kPathCoverCycles", lambda: fp.kPathCoverCycles(g(C), k=2)), ("MinPathCoverCycles", lambda: fp.MinPathCoverCycles(g(C))),
+          ("MinErrorFlow", lambda: fp.MinErrorFlow(g(Dn), "flow", weight_type=int)), ("MinErrorFlow/cyclic", lambda: fp.MinErrorFlow(g(Cn), "flow", weight_type=int)),
+          ("MinErrorFlow+eps", lambda: fp.MinErrorFlow(g(Dn), "flow", weight_type=int, few_flow_values_epsilon=0.5)),
+          ("MinErrorFlow+eps/cyclic", lambda: fp.MinErrorFlow(g(Cn), "flow", weight_type=int, few_flow_values_epsilon=0.5)),
+          ("MinErrorFlow+lambda", lambda: fp.MinErrorFlow(g(Dn), "flow", weight_type=float, sparsity_lambda=0.5)),
+          ("MinGenSet", lambda: fp.MinGenSet([1, 2, 4, 8], total=15, weight_type=int)), ("MinSetCover", lambda: fp.MinSetCover([1, 2, 3], [[1, 2], [2, 3], [3]]))]
+    def view(m):
+        sol = m.get_solution()
+        size = len(sol.get("paths", sol.get("walks", []))) if isinstance(sol, dict) else len(sol)
+        try:
+            obj = round(float(m.get_objective_value()), 6)
+        except Exception:
+            obj = None
+        return (size, obj)
+    for name, make in mk:
+        res["obligations"] += 1
+        res["nontrivial"] += 1
+        try:
+            m = make()
+            ok1 = bool(m.solve())
+            v1 = view(m) if ok1 else None
+            v1b = view(m) if ok1 else None
+            ok2 = bool(m.solve())
+            v2 = view(m) if ok2 else None
+        except Exception as e:
+            res["violations"].append({"signature": f"{name.split('/')[0]}:repeated-calls-raise", "summary": f"{name}: {type(e).__name__}: {str(e)[:150]}", "replay": {"task": task}})
+            continue
+        if ok1 != ok2 or v1 != v2 or v1 != v1b:
+            res["violations"].append({"signature": f"{name.split('/')[0]}:repeated-calls-disagree", "summary": f"{name}: first solve {ok1} {v1}, getters again {v1b}, second solve {ok2} {v2}", "replay": {"task": task}})
+        else:
+            res["discharged"] += 1
+    res["evaluations"] = len(mk)
+    res["samples"].append({"obligation": "solve(); getters; solve(); getters on one object agree (verdict, size, objective)", "classes": [n for n, _ in mk]})
+    return res
+
+
 def replay(data):
     task = data["task"]
-    if task["kind"] == "defaults":
+    if task["kind"] in ("defaults", "resolve"):
         r = run_task(task)
         for v in r["violations"]:
             print("  replay:", v["summary"])
@@ -329,8 +393,8 @@ def replay(data):
 RULE = ("one evaluation = one history of model constructions/solves sharing the caller's graph, option dictionaries, constraint and ignore lists (class index and sharing bits symbolic); "
         "non-trivial = histories of length >= 2; plus one case per mutable default argument of an exported __init__")
 ASSUMPTIONS = [
-    "models are built and solved concretely under NoTracing on one DAG instance and one cyclic instance; CrossHair covers all histories of length 2 (3 in thorough) over 11 (9) class variants (incl. given weights, zero error scale, subgraph scanning, ignore percentile) x 3 sharing patterns (nothing shared / option dicts / option dicts + constraint and ignore lists)",
-    "checked after every step: deep equality (repr) of the caller's graph incl. attributes, both option dicts, constraint and ignore lists with their pre-image; (solved, objective, #routes) equals the same call on fresh copies; get_solution/get_objective_value repeated twice agree",
+    "models are built and solved concretely under NoTracing on one DAG instance and one cyclic instance; CrossHair covers all histories of length 2 (3 in thorough) over 12 (10) class variants (incl. given weights, zero error scale, subgraph scanning, ignore percentile, MinErrorFlow with few-values epsilon) x 3 sharing patterns (nothing shared / option dicts / option dicts + constraint and ignore lists)",
+    "checked after every step: deep equality (repr) of the caller's graph incl. attributes, both option dicts, constraint and ignore lists with their pre-image; (solved, objective, #routes) equals the same call on fresh copies; get_solution/get_objective_value repeated twice agree; a second solve() on one object (same verdict, optimum, number of routes) is checked concretely for every class in the 'resolve' task",
 ]
 
 
@@ -340,5 +404,5 @@ def main(tier, seed):
     for t in tasks:
         t["timeout"] = 140 if tier == "quick" else 900
     acc = core.run_tasks(run_task, tasks, deadline_s=175 if tier == "quick" else 2400)
-    bounds = {"history_len": 2 if tier == "quick" else 3, "class_variants": {"dag": 11, "cyclic": 9}, "sharing_patterns": 3}
+    bounds = {"history_len": 2 if tier == "quick" else 3, "class_variants": {"dag": 12, "cyclic": 10}, "sharing_patterns": 3}
     return core.finish(PID, tier, seed, LEVEL, acc, t0, RULE, ASSUMPTIONS, bounds, replay)
